@@ -264,6 +264,25 @@ pub fn apply(m: &mut Value, e: &MEdit, serial: u64) -> bool {
             let new = match to.as_str() {
                 "nil" => NIL.to_string(),
                 "fresh" => fresh_id(serial.wrapping_mul(7919).wrapping_add(13)),
+                // a valid link, but to ANOTHER element of the right collection (the element
+                // after the current target, cyclically): the model stays closed
+                "sibling" => {
+                    let name = match link_target_collection(ptr) {
+                        Some(n) => n,
+                        None => return false,
+                    };
+                    let path = match closure::COLLECTIONS.iter().find(|c| c.0 == name) {
+                        Some((_, p)) => *p,
+                        None => return false,
+                    };
+                    let cur = m.pointer(ptr).and_then(|v| v.as_str()).unwrap_or("").to_string();
+                    let ids: Vec<String> = closure::collection(m, path).iter().filter_map(|e| e.get("id").and_then(|v| v.as_str()).map(|s| s.to_string())).collect();
+                    if ids.len() < 2 {
+                        return false;
+                    }
+                    let pos = ids.iter().position(|i| *i == cur).unwrap_or(0);
+                    ids[(pos + 1) % ids.len()].clone()
+                }
                 t if t.starts_with("other:") => {
                     // first id of the named collection (which must not be the link's own target)
                     let name = &t[6..];
